@@ -1955,6 +1955,47 @@ fn sql_unique(st: &SqlTy, tier: Tier, ctx: &Ctx, rep: &mut Reporter) {
     }
 }
 
+/// Observation only (never a C26 verdict): IndexNestedLoopJoin probes the index with
+/// `Value::encode_to_key`, the index is written with `encode_value_as_key`; when the two
+/// encoders disagree for a type the join finds nothing.  Agreement of two encoders is not part
+/// of the C26 statement (it belongs to C10/C17), so it is only counted and noted.
+fn sql_joinprobe(st: &SqlTy, ctx: &Ctx, rep: &mut Reporter) {
+    let Ok(t) = TestDb::create(&ctx.scratch, &format!("jp_{}", st.name)) else { return };
+    for ddl in [format!("CREATE TABLE a(id INT PRIMARY KEY, x {})", st.decl), format!("CREATE TABLE b(id INT PRIMARY KEY, c {})", st.decl), "CREATE INDEX ibc ON b(c)".to_string()] {
+        if !t.exec(&ddl).ok() {
+            return;
+        }
+    }
+    let n = st.vals.len().min(12);
+    let mut want = 0u64;
+    for i in 0..n {
+        let v = &st.vals[i];
+        if st.vals[..i].iter().any(|w| sshare(w, v) != Some(false)) || matches!(v.k[0], KV::Float(f) if f.is_nan()) {
+            continue; // keep the expected result a plain 1:1 matching
+        }
+        let p = [OwnedValue::Int(i as i64), v.ov.clone()];
+        if exec_params(t.db(), "INSERT INTO a VALUES (?, ?)", &p).ok() && exec_params(t.db(), "INSERT INTO b VALUES (?, ?)", &p).ok() {
+            want += 1;
+        }
+    }
+    let sql = "SELECT a.id, b.id FROM a JOIN b ON a.x = b.c";
+    let plan = explain(t.db(), sql).unwrap_or_default();
+    if !plan.contains("IndexNestedLoopJoin") {
+        rep.count("observation_joinprobe_not_an_index_join_plan", 1);
+        return;
+    }
+    let got = match t.exec(sql) {
+        Res::Rows(r) => r.len() as u64,
+        _ => u64::MAX,
+    };
+    if got == want {
+        rep.count("observation_joinprobe_types_agreeing", 1);
+    } else {
+        rep.count("observation_joinprobe_types_with_mismatching_probe_key", 1);
+        rep.note(&format!("observation (not a C26 verdict): IndexNestedLoopJoin on an indexed {} column returned {} of {} matching rows - Value::encode_to_key (probe) and Database::encode_value_as_key (index) disagree for this type", st.decl, if got == u64::MAX { "error".to_string() } else { got.to_string() }, want));
+    }
+}
+
 /// composite secondary index (c1, c2): index order is column-wise
 fn sql_composite(which: usize, tier: Tier, ctx: &Ctx, rep: &mut Reporter) {
     let blobs: Vec<Vec<u8>> = strings(&[0x00u8, 0x61, 0xFF], 2);
@@ -2168,6 +2209,12 @@ impl Check for C26 {
                     }
                     rep.case(vcore::util::hash_of(&("sql", st.name, scn)), true);
                 }
+            }
+        }
+        for st in &stypes {
+            block += 1;
+            if ctx.mine(block) {
+                sql_joinprobe(st, ctx, rep);
             }
         }
         for which in 0..4 {
